@@ -27,6 +27,19 @@ Theorem C25_source_imports :
 Proof. exact (conj new_import_src_doc (conj abs_import_normalised (conj initial_imports_base fqn_src_doc))). Qed.
 Print Assumptions C25_source_imports.
 
+(* The load algorithm as found in the source (textx/lang.py language_from_str ->
+   arpeggio.visit_parse_tree, the visitor's visit_import_stm -> metamodel._new_import ->
+   metamodel_from_file recursion): import statements are visited in textual order, both passes of
+   an imported grammar run inside _new_import before the importer continues (the source of the
+   cyclic-import finding), and the namespace is entered before and left after the nested load.
+   With these generated facts the source-driven load is the documented one; every theorem below
+   about load_main is proved through this equation and so re-proved against the source. *)
+Theorem C25_source_load : forall fs main,
+  load_main fs main = load_main_doc fs main /\
+  (forall fuel stk ns s, load fuel fs stk ns s = load_doc fuel fs stk ns s).
+Proof. exact (fun fs main => conj (load_main_src_doc fs main) (load_src_doc fs)). Qed.
+Print Assumptions C25_source_load.
+
 (* ---- the look-up itself, for every meta-model state and any number of imports ---- *)
 
 (* Unqualified names: the rule of the current namespace if it has one; otherwise the first
@@ -66,7 +79,7 @@ Theorem C25_resolution_order : forall fs main,
   serr (load_main fs main) = None -> backs (load_main fs main) = [] ->
   forall l, In l (links (load_main fs main)) ->
     option_map cls_key (l_target l) = spec_resolve fs (l_ns l) (l_name l).
-Proof. exact links_spec. Qed.
+Proof. exact links_spec_src. Qed.
 Print Assumptions C25_resolution_order.
 
 (* The same for import cycles that are harmless: every followed import (importer, imported)
@@ -79,7 +92,7 @@ Theorem C25_resolution_order_cycles : forall fs main,
   serr (load_main fs main) = None -> safe fs (load_main fs main) = true ->
   forall l, In l (links (load_main fs main)) ->
     option_map cls_key (l_target l) = spec_resolve fs (l_ns l) (l_name l).
-Proof. exact links_spec_safe. Qed.
+Proof. exact links_spec_safe_src. Qed.
 Print Assumptions C25_resolution_order_cycles.
 
 (* metamodel[name] after ANY successful load (import cycles included) is the documented rule
@@ -88,7 +101,7 @@ Theorem C25_metamodel_getitem : forall fs main,
   aget BASE fs = None -> main <> BASE -> serr (load_main fs main) = None ->
   forall name c, lookup (load_main fs main) main name = Some c ->
     Some (cls_key c) = spec_resolve fs main name.
-Proof. exact final_lookup. Qed.
+Proof. exact final_lookup_src. Qed.
 Print Assumptions C25_metamodel_getitem.
 
 (* ... and an unqualified name that is not found has no documented rule either. *)
@@ -96,7 +109,7 @@ Theorem C25_metamodel_getitem_none : forall fs main,
   aget BASE fs = None -> main <> BASE -> serr (load_main fs main) = None ->
   forall name, has_dot name = false -> lookup (load_main fs main) main name = None ->
     spec_resolve fs main name = None.
-Proof. exact final_lookup_none. Qed.
+Proof. exact final_lookup_none_src. Qed.
 Print Assumptions C25_metamodel_getitem_none.
 
 (* Each class sits under its rule name in the namespace of its grammar file and reports the
@@ -105,7 +118,7 @@ Print Assumptions C25_metamodel_getitem_none.
 Theorem C25_fqn : forall fs main, main <> BASE ->
   forall a n c, lookup_in (load_main fs main) a n = Some c ->
     c_ns c = a /\ c_name c = n /\ fqn c = (if str_eqb a BASE then n else a ++ DOT :: n).
-Proof. exact classes_fqn. Qed.
+Proof. exact classes_fqn_src. Qed.
 Print Assumptions C25_fqn.
 
 (* One set of classes per grammar file, however many import paths lead to it: two table
@@ -119,19 +132,19 @@ Theorem C25_one_class_set_per_file : forall fs main, main <> BASE ->
      c_id c = c_id c' -> a = a' /\ n = n') /\
   (serr (load_main fs main) = None ->
    created (load_main fs main) = length base_names + nrules_of fs (loads (load_main fs main))).
-Proof. exact one_class_set. Qed.
+Proof. exact one_class_set_src. Qed.
 Print Assumptions C25_one_class_set_per_file.
 
 (* Every grammar file is read at most once, however many import paths (or cycles) lead to
    it; holds for failed loads too. *)
 Theorem C25_each_file_read_once : forall fs main, main <> BASE -> NoDup (loads (load_main fs main)).
-Proof. exact loads_once. Qed.
+Proof. exact loads_once_src. Qed.
 Print Assumptions C25_each_file_read_once.
 
 (* Loading terminates for every import graph (cycles of imports included): the fuel
    |fs|+1 used by load_main is never exhausted, so EFuel is not a possible outcome. *)
 Theorem C25_terminates : forall fs main, serr (load_main fs main) <> Some EFuel.
-Proof. exact load_main_terminates. Qed.
+Proof. exact load_main_terminates_src. Qed.
 Print Assumptions C25_terminates.
 
 (* ---- known finding: import cycles ---- *)
